@@ -114,7 +114,11 @@ export function pool(script, args, indices, workers, onResult, onStall = null, s
       let done = false;
       const feed = () => {
         busy = null;
-        if (next < indices.length && stalls < 6) child.send({ index: indices[next++] });
+        if (next < indices.length && stalls < 6) {
+          // an entry is a run index (the worker generates the run) or {index, run} (an explicit, recorded run)
+          const it = indices[next++];
+          child.send(typeof it === "object" ? it : { index: it });
+        }
         else {
           done = true;
           child.send({ done: true });
